@@ -6,13 +6,14 @@ expand_visitor.rs; S is R7RS matching with binding trees plus a Kohlbecker-style
 
 Proved here, for ALL patterns / forms / programs (induction, no bounds):
   * `match_exact`     : matching a form and re-instantiating the pattern as a template gives the form back, and
-                        every pattern variable is bound  (guard: `PatOK`, `userForm`, disjoint spellings)
+                        every pattern variable is bound  (guard: `PatOK`, `userForm`, disjoint spellings); since
+                        fix 2a1b125d of `collect_bindings` this includes an ellipsis followed by a dotted tail
   * `match_complete`  : after a successful match `collect_bindings` never fails (guard: well-formed pattern)
   * `match_literal`   : a literal matches exactly the identifier of that spelling that is not bound at the use site
   * `expand_fuel_mono`: more fuel never changes an `ok` result of the expander
   * `not_hygiene`     : the full statement `Hygiene` is false for M — witnesses = D8's programs, by `decide`;
                         one witness per conjunct of the guard that can be violated (`G.a`, `G.b`, `G.c`, `G.d`)
-  * `match_exact_needs_guard_e/_clean` : the guards of `match_exact` are necessary (witnesses by `decide`)
+  * `match_exact_needs_nested_guard/_clean` : the guards of `match_exact` are necessary (witnesses by `decide`)
 NOT proved: `hygiene_partial : G prog → expandM prog ≈α expandS prog`.  The statement is kept (`HygienePartial`);
 what is missing is a simulation between M's `##`-prefix renaming and S's stamps through nested expansions
 (every `##x` occurrence of one template instance stays in the scope of that instance's binder) and the
@@ -32,8 +33,9 @@ expander marks, dotted lists normalised. -/
 def userForm (f : Sexp) : Prop := f.hasEllipsis = false ∧ f.isPlain = true ∧ normal f = true
 
 /-- Side conditions on a compiled pattern list — what `parse_from_list` guarantees (one ellipsis per list,
-distinct variables, literals are not variables) minus the class of finding K13e (an ellipsis followed by a
-dotted tail in the same list). -/
+distinct variables, literals are not variables; a dotted tail is a variable), except that a NESTED pattern
+list of the exact form `(p ... . r)` is excluded (`isManyRest`: it also matches forms that are not lists, for
+which the pattern-as-template does not give the form back, see `match_exact_needs_nested_guard`). -/
 def PatOK (ps : List Pat) : Prop :=
   wfList ps = true ∧ (Pat.varsList ps).Nodup ∧ ∀ s ∈ Pat.litsList ps, s ∉ Pat.varsList ps
 
@@ -61,8 +63,8 @@ theorem match_exact (sc : List Name) (c : ICtx) (ps : List Pat) (xs : List Sexp)
       cases hm
       rw [matchList_eq] at hml
       rw [collect_eq] at hcol
-      have hE := exact1_all (.nested ps) (by simpa [wf1] using hwf) (by simpa [Pat.vars] using hnd)
-        (.list xs imp) sc {} env hn hml hcol
+      have hE := exactL_of_wf ps (exactMem_all ps) hwf (by simpa [Pat.vars] using hnd)
+        xs imp sc {} env hn hml hcol
       have hframe := collectOne_frame (.nested ps) (.list xs imp) {} env hcol
       have hkeys : ∀ k, k ∉ Pat.varsList ps → env.b.get k = none := by
         intro k hk
@@ -85,7 +87,7 @@ theorem match_complete (sc : List Name) (ps : List Pat) (xs : List Sexp) (imp : 
     (hwf : wfList ps = true) (hn : normal (.list xs imp) = true)
     (hm : matchList sc ps xs imp = true) : ∃ env, matchP sc ps xs imp = some env := by
   rw [matchList_eq] at hm
-  obtain ⟨e, he⟩ := complete1_all (.nested ps) (by simpa [wf1] using hwf) (.list xs imp) sc {} hn hm
+  obtain ⟨e, he⟩ := completeL_of_wf ps (completeMem_all ps) hwf xs imp sc {} hn hm
   refine ⟨e, ?_⟩
   simp only [matchP, matchList_eq, hm, if_true, collect_eq, he]
 
@@ -230,23 +232,32 @@ theorem not_hygiene : ¬ Hygiene := fun h => by
 
 /-! ## The guards of `match_exact` are necessary -/
 
-/-- Pattern `(a ... . r)` (ellipsis followed by a dotted tail — excluded by `PatOK`, finding K13e) on the
-proper list `(1 2 3)`: the matcher accepts, the collector binds `a = (1 2)`, `r = (3)`. -/
-theorem match_exact_needs_guard_e :
+/-- Regression (fix 2a1b125d): pattern `(a ... . r)` on the proper list `(1 2 3)` binds `a = (1 2 3)`, `r = ()`
+(before the fix: `a = (1 2)`, `r = (3)`), and on `()` it binds `a = ()`, `r = ()` (before: `usize` underflow). -/
+theorem ellipsis_dotted_tail_fixed :
     let ps := [Pat.many (.var (nm "a")), Pat.rest (.var (nm "r"))]
-    let xs := [Sexp.int 1, .int 2, .int 3]
-    wfList ps = false ∧
-    (match matchP [] ps xs false with
-     | some env => env.b.get (nm "a") == some (Sexp.list [.int 1, .int 2] false) &&
-                   env.b.get (nm "r") == some (Sexp.list [.int 3] false)
+    PatOK ps ∧
+    (match matchP [] ps [Sexp.int 1, .int 2, .int 3] false with
+     | some env => env.b.get (nm "a") == some (Sexp.list [.int 1, .int 2, .int 3] false) &&
+                   env.b.get (nm "r") == some Sexp.nil
+     | none => false) = true ∧
+    (match matchP [] ps [] false with
+     | some env => env.b.get (nm "a") == some Sexp.nil && env.b.get (nm "r") == some Sexp.nil
      | none => false) = true := by decide
 
-/-- … and on `()` the collector hits `usize` underflow (a panic in steel). -/
-theorem collect_panics_e :
-    matchList [] [Pat.many (.var (nm "a")), Pat.rest (.var (nm "r"))] [] false = true ∧
-    (match collect [Pat.many (.var (nm "a")), Pat.rest (.var (nm "r"))] [] false with
-     | .error .panic => true
-     | _ => false) = true := by decide
+/-- The remaining guard: a NESTED pattern `(a ... . r)` matched against a form that is not a list (`5`).
+The bindings are right (`a = ()`, `r = 5`, `non_list_match`), but instantiating the pattern as a template
+yields the one-element improper list `( . 5)`, which `make_improper` does not normalise to `5`. -/
+theorem match_exact_needs_nested_guard :
+    let ps := [Pat.var (nm "x"), Pat.nested [Pat.many (.var (nm "a")), Pat.rest (.var (nm "r"))]]
+    wfList ps = false ∧
+    (match matchP [] ps [Sexp.int 0, Sexp.int 5] false with
+     | some env =>
+         env.b.get (nm "r") == some (Sexp.int 5) && env.b.get (nm "a") == some Sexp.nil &&
+         (match instantiate {} env (.list (tmplList ps) (lastIsRest ps)) 2 with
+          | .ok r => r == Sexp.list [.int 0, .list [.int 5] true] false
+          | .error _ => false)
+     | none => false) = true := by decide
 
 /-- A form that contains an identifier spelled like a pattern variable (`hdisj` violated): the spliced forms
 are visited again and substituted a second time. -/
@@ -282,6 +293,16 @@ example : ∃ env, matchP [] exPat exForm false = some env ∧
       = .ok (.list exForm false) := by
   obtain ⟨env, henv⟩ := match_complete [] exPat exForm false (by decide) (by decide) (by decide)
   exact ⟨env, henv, (match_exact [] {} exPat exForm false env (by decide) (by decide) (by decide) henv).1⟩
+
+/-- `match_exact` covers an ellipsis followed by a dotted tail: `(a b ... c . r)` on `(1 2 3 4 . 5)` -/
+example : ∃ env, matchP [] [.var (nm "a"), .many (.var (nm "b")), .var (nm "c"), .rest (.var (nm "r"))]
+      [.int 1, .int 2, .int 3, .int 4, .int 5] true = some env ∧
+    instantiate {} env (.list (tmplList [.var (nm "a"), .many (.var (nm "b")), .var (nm "c"), .rest (.var (nm "r"))]) true)
+      (Sexp.list [.int 1, .int 2, .int 3, .int 4, .int 5] true).depth
+      = .ok (.list [.int 1, .int 2, .int 3, .int 4, .int 5] true) := by
+  obtain ⟨env, henv⟩ := match_complete [] [.var (nm "a"), .many (.var (nm "b")), .var (nm "c"), .rest (.var (nm "r"))]
+    [.int 1, .int 2, .int 3, .int 4, .int 5] true (by decide) (by decide) (by decide)
+  exact ⟨env, henv, (match_exact [] {} _ _ true env (by decide) (by decide) (by decide) henv).1⟩
 
 /-- a dotted pattern `(a b . r)` on `(1 2 3 . 4)` -/
 example : (matchP [] [.var (nm "a"), .var (nm "b"), .rest (.var (nm "r"))]
